@@ -74,6 +74,11 @@ def seeds() -> dict[str, list[tuple[str, bytes]]]:
             ti.size = len(data)
             tf.addfile(ti, io.BytesIO(data))
     out["tar.gz"].append(("gen/tar-latin1-member-name", tb.getvalue()))
+    # legacy workbooks with a picture store: one picture, the same picture twice (stored once per use by some writers), two different ones
+    from vf.gen import biff8, imgenc
+    pa, pb = imgenc.png(3, 2, 1), imgenc.png(2, 2, 5)
+    for nm, pics in (("one", [("png", pa)]), ("same-twice", [("png", pa), ("png", pa)]), ("two", [("png", pa), ("png", pb)]), ("same-thrice-mixed", [("png", pa), ("png", pb), ("png", pa), ("png", pa)])):
+        out["xls"].append((f"gen/xls-pictures-{nm}", biff8.write_xls([{"name": "S1", "rows": [["colA", "colB"], ["ZB00017", 4]]}], pictures=pics)))
     font, _ = cidpdf.digit_font()
     out["pdf"].append(("gen/cid", cidpdf.cid_pdf(font, [3, 11, 12, 4], {3: "A", 4: "B", 11: None, 12: None})))
     for e in EXTS:
@@ -225,7 +230,17 @@ def run_case(raw: bytes, ext: str, full: bool):
         msg = EmailMessage()
         msg["Subject"], msg["From"], msg["To"] = "carrier", "a@example.org", "b@example.org"
         msg.set_content("body")
-        msg.add_attachment(raw, maintype="application", subtype="octet-stream", filename=path)
+        # declared with the type of its format: only attachments of a supported declared type are handed to an extractor
+        from sharepoint2text.parsing.mime_types import MIME_TYPE_MAPPING
+        base_ext = {"tar.gz": "tgz", "mhtml": "html"}.get(ext, ext)
+        mime = next((k for k, v in MIME_TYPE_MAPPING.items() if v == base_ext), "application/octet-stream")
+        if mime.startswith("text/") or mime == "message/rfc822":
+            mime = "application/octet-stream" if mime == "message/rfc822" else mime
+        maintype, subtype = mime.split("/", 1)
+        if maintype == "text":
+            msg.add_attachment(raw.decode("latin-1"), subtype=subtype, charset="latin-1", filename=path)        # any byte string survives latin-1
+        else:
+            msg.add_attachment(raw, maintype=maintype, subtype=subtype, filename=path)
 
         def attach():
             for mail in get_extractor("carrier.eml")(io.BytesIO(msg.as_bytes()), "carrier.eml"):
